@@ -13,13 +13,16 @@ F_ALT = "C13-dropseries-alternatives"
 F_CACHE = "C13-dropseries-filtercache"
 F_KEYS = "C13-dropseries-tagkeys"
 F_CROSS = "C13-stale-deleted-set"
-LISTING = {"show-series", "show-series-where", "show-tag-values"}
+F_PURGE = "C13-purge-loses-live-items"
+LISTING = {"show-series", "show-series-where", "show-tag-values", "tv-where-eq", "tv-where-eq-y", "tv-where-neq", "tv-where-re",
+           "tv-where-nre", "tv-where-host-neq", "tv-keyre-where", "tv-in-where", "tk-where-host", "tk-where-region",
+           "ss-where-neq", "ss-where-re", "ss-where-nre", "ss-where-region"}
 PORT = 21300
 
 # shapes whose series set starts from "all series of the measurement" on the select path
 ALL_BASED = {"select-all", "field-filter", "group-by-tag", "agg-pushdown", "agg-by-tag", "agg-no-pushdown", "agg-by-time",
              "tag-neq", "tag-absent", "tag-nre-alternation"}
-P_OR, P_LIT = 1, 2          # pattern ids: /a|b/ and /a/
+P_OR, P_LIT, P_RXY, P_RX = 1, 2, 3, 4          # pattern ids: /a|b/, /a/, /x|y/, /x/
 
 
 class Intern:
@@ -58,7 +61,31 @@ def shape_query(shape, it):
         return 1, None
     if shape == "show-series-where":
         return 1, "(Atom %d Eq %d)" % (host, a)
+    if shape == "ss-where-neq":
+        return 1, "(Atom %d Neq %d)" % (host, a)
+    if shape == "ss-where-re":
+        return 1, "(Atom %d Re %d)" % (host, P_OR)
+    if shape == "ss-where-nre":
+        return 1, "(Atom %d Nre %d)" % (host, P_OR)
+    if shape == "ss-where-region":
+        return 1, "(Atom %d Eq %d)" % (it.str("region"), it.str("x"))
     return None
+
+
+def listing_query(shape, it):
+    """conditioned listings: ("vals"|"keys", condition or None), or None"""
+    host, region = it.str("host"), it.str("region")
+    x, y = it.str("x"), it.str("y")
+    tab = {"show-tag-values": ("vals", None),
+           "tv-where-eq": ("vals", "(Atom %d Eq %d)" % (region, x)), "tv-keyre-where": ("vals", "(Atom %d Eq %d)" % (region, x)),
+           "tv-where-eq-y": ("vals", "(Atom %d Eq %d)" % (region, y)),
+           "tv-where-neq": ("vals", "(Atom %d Neq %d)" % (region, x)),
+           "tv-where-re": ("vals", "(Atom %d Re %d)" % (region, P_RXY)),
+           "tv-where-nre": ("vals", "(Atom %d Nre %d)" % (region, P_RX)),
+           "tv-where-host-neq": ("vals", "(Atom %d Neq %d)" % (host, it.str("b"))),
+           "tk-where-host": ("keys", "(Atom %d Eq %d)" % (host, it.str("a"))),
+           "tk-where-region": ("keys", "(Atom %d Eq %d)" % (region, x))}
+    return tab.get(shape)
 
 
 def pred_coq(p, it):
@@ -99,6 +126,16 @@ def case_coq(h, later):
     def reads(step):
         primed_phase = step["phase"] in ("right-after-drop", "after-drop") and h["prime"] and h["drop"]["kind"] == "series"
         for o in step["obs"]:
+            lq = listing_query(o["shape"], it)
+            if lq is not None:
+                kind, e = lq
+                vals = [] if o.get("err") else [str(it.str(v)) for v in sorted(set(o.get("rows") or []))]
+                qq = "None" if e is None else "(Some %s)" % e
+                if kind == "vals":
+                    ops.append("KVals %d %d %s %s" % (it.str(o["mst"]), it.str("host"), qq, coq_list(vals)))
+                else:
+                    ops.append("KKeys %d %s %s" % (it.str(o["mst"]), qq, coq_list(vals)))
+                continue
             sq = shape_query(o["shape"], it)
             if sq is None:
                 continue
@@ -139,7 +176,8 @@ def case_coq(h, later):
         if ph in steps:
             reads(steps[ph])
     host = it.str("host")
-    am = ["(%d, %d)" % (P_OR, it.str("a")), "(%d, %d)" % (P_OR, it.str("b")), "(%d, %d)" % (P_LIT, it.str("a"))]
+    am = ["(%d, %d)" % (P_OR, it.str("a")), "(%d, %d)" % (P_OR, it.str("b")), "(%d, %d)" % (P_LIT, it.str("a")),
+          "(%d, %d)" % (P_RXY, it.str("x")), "(%d, %d)" % (P_RXY, it.str("y")), "(%d, %d)" % (P_RX, it.str("x"))]
     ordt = ["(%d, %d)" % (it.str(m), phantom) for m in h["msts"] if m in later]
     return "(mkT %s [%d] %s, %s)" % (coq_list(am), P_OR, coq_list(ordt), coq_list(ops)), len(ops)
 
@@ -150,6 +188,20 @@ def parse_mism(out):
         return None
     txt = re.sub(r"\s+", "", m.group(1))      # the printer breaks lines anywhere, also right after "("
     return [(int(a), int(b)) for a, b in re.findall(r"\((\d+)(?:%\w+)?,(\d+)(?:%\w+)?\)", txt)]
+
+
+def fragment_finding(ck, fid):
+    """an open entry of the committed per-property fragment props/C13/findings.json that the merged known_findings.json does not
+    carry yet (the fragment is merged centrally; nothing is ever written at run time)"""
+    if any(f["id"] == fid for f in ck.findings):
+        return ck.match_finding(fid)
+    try:
+        for f in json.load(open(os.path.join(ck.verif, "props", PID, "findings.json")))["findings"]:
+            if f["id"] == fid and f.get("status") == "open":
+                return f
+    except (OSError, ValueError):
+        pass
+    return None
 
 
 def setup():
@@ -176,6 +228,28 @@ def main(ck):
     srv = ck.go_build_repo("./app/ts-server", "ts-server")
     if not binp or not srv:
         return
+    # ---- physical purge of dropped series (in-process; the server runs it hourly)
+    purgeb = ck.go_build("./cmd/c13purge", "c13purge")
+    purge = None
+    if purgeb and not getattr(ck, "replay", None):
+        rcp, outp = ck.run([purgeb, "6000" if ck.tier == "quick" else "20000"], timeout=600)
+        for l in outp.splitlines():
+            if l.startswith('{') and '"purge"' in l:
+                purge = json.loads(l)
+        if rcp != 0 or purge is None:
+            ck.broken.append("harness c13purge failed rc=%d: %s" % (rcp, outp[-500:]))
+        else:
+            ck.cov["purge"] = purge
+            lost = purge["key_no_longer_resolves"] or purge["not_found_by_own_tag_filter"] or purge["missing_from_shared_tag_filters"]
+            hidden_ok = purge["count_after_drop"] == purge["expected_after"] == purge["count_after_purge"] and purge["count_before"] == purge["series"]
+            if not hidden_ok:
+                ck.violation({"kind": "direct-oracle", "what": "series counts around the purge of dropped series are wrong", "purge": purge})
+            elif lost:
+                if fragment_finding(ck, F_PURGE):
+                    ck.known_finding(F_PURGE, "the physical purge of dropped series also removes index items of series that were not dropped")
+                else:
+                    ck.violation({"kind": "direct-oracle", "what": "after the purge of dropped series, surviving series lost index items",
+                                  "purge": purge, "rerun": "VERIF_SEED=%d harness/cmd/c13purge %d" % (ck.seed, purge["series"])})
     files = sorted(glob.glob(os.path.join(ck.verif, "corpus", "C13", "*.case")))
     n = 22 if ck.tier == "quick" else 160
     if getattr(ck, "replay", None):
@@ -326,7 +400,7 @@ def main(ck):
     ck.cov["distinct_nontrivial"] = len(nontriv)
     ck.cov["traces_validated_against_impl"] = validated
     ck.cov["rule"] = ("history = two write batches (flushed / in memory, out of order, sometimes two shard groups) over 1-3 measurements, "
-                      "one drop, writes after it, flush, kill -9 + restart, with the 16-18 shape read matrix at five points; evaluations = "
+                      "one drop, writes after it, flush, kill -9 + restart, with the 32-34 shape read matrix (selects, aggregates, plain and conditioned listings, exact cardinalities) at five points; evaluations = "
                       "reads compared with the reference; non-trivial = the drop removed some rows and left some; distinct = different "
                       "series/points/drop")
     ck.cov["drop_kind_histogram"] = kinds
